@@ -9,7 +9,7 @@ import re
 from harness.common import (canon, dec_res, dec_val, enc_val, ensure_impl_on_path, known_predicate,
                             run_impl, same)
 
-GEN_MODULES = ['excelutil', 'excellib', 'stats', 'excelformula']
+GEN_MODULES = ['excelutil', 'aggregates', 'stats', 'excelformula']
 EXTRA_TARGETS = ('Proofs/C14.vo',)
 
 ERRORS = ['#NULL!', '#DIV/0!', '#VALUE!', '#REF!', '#NAME?', '#NUM!', '#N/A']
